@@ -10,6 +10,7 @@ import (
 	"github.com/godaddy/asherah/go/appencryption"
 	"github.com/godaddy/asherah/go/securememory"
 	"pgregory.net/rapid"
+	"verif/backing"
 	"verif/kit"
 	"verif/world"
 )
@@ -215,9 +216,21 @@ func enumerate(t *rapid.T, base *world.FaultScenario, run func(*rapid.T, *world.
 	}
 }
 
+// useRealMetastore: a quarter of the scenarios keep their rows in a real metastore implementation
+// (a fresh one per execution) behind the fault-injecting wrapper.
+func useRealMetastore(t *rapid.T, sc *world.FaultScenario) {
+	if rapid.IntRange(0, 3).Draw(t, "realMetastore") != 2 {
+		return
+	}
+	name := rapid.SampledFrom(backing.Names).Draw(t, "metastore")
+	sc.Opt.NewBacking = func() kit.StoreBacking { return backing.New(name) }
+	kit.Rec.Label("metastore:" + name)
+}
+
 func TestEncryptFaults(t *testing.T) {
 	kit.Check(t, 200, 3200, func(t *rapid.T) {
 		sc := world.DrawScenario(t, world.KeyStates)
+		useRealMetastore(t, sc)
 		enumerate(t, sc, runEncrypt, kit.Pick(40, -1))
 	})
 }
@@ -226,6 +239,7 @@ func TestDecryptFaults(t *testing.T) {
 	states := []string{"warm-held", "warm-fresh", "stale", "expired", "ik-revoked", "sk-revoked", "ext-rotated", "ext-rotated-sk"}
 	kit.Check(t, 120, 1600, func(t *rapid.T) {
 		sc := world.DrawScenario(t, states)
+		useRealMetastore(t, sc)
 		enumerate(t, sc, runDecrypt, kit.Pick(40, -1))
 	})
 }
